@@ -34,7 +34,7 @@ Theorem C06_read_coherent_flat_partial :
     (forall r, select AF reg st f = Some r ->
        forallb (in_base (s_base st)) (r_feats r) = true
        /\ uses_covered r = true /\ plain_method r = true
-       /\ (r_rf r =? 2) = false /\ r_extra r = []) ->
+       /\ rf_hashed r = false /\ r_extra r = []) ->
     snd (read RF reg st f) = snd (read RF reg (clear st) f).
 Proof. exact history_read_coherent. Qed.
 Print Assumptions C06_read_coherent_flat_partial.
